@@ -707,9 +707,14 @@ func (p *prefixed) Read(b []byte) (int, error) {
 
 type sysVerdict struct{ sig, msg string }
 
+// sysEOFShort marks the failures that are silent truncations (clean EOF before the length although every
+// Write and the CloseWrite succeeded); they get their own signature when they repeat.
+const sysEOFShort = "[silent truncation] "
+
 // sysJudge applies the oracle to one outcome. safety: refutations that need no second look (a byte the
-// writer did not send at that position, silent truncation, data after EOF). failed: the delivery ended in
-// an error without any fault having been injected (decided after a second run). timeout: watchdog only.
+// writer did not send at that position, more bytes than written, data after EOF). failed: the delivery
+// ended in an error or in a silent truncation without any fault having been injected (decided after a
+// second run on fresh hosts). timeout: watchdog only.
 func sysJudge(c *sysCase, out *sysOutcome) (safety []sysVerdict, failed []string, timeout bool) {
 	if out.Watchdog {
 		timeout = true
@@ -746,8 +751,10 @@ func sysJudge(c *sysCase, out *sysOutcome) (safety []sysVerdict, failed []string
 			case d.rr.Total > d.want:
 				safety = append(safety, sysVerdict{"sys:more-bytes-than-written/" + c.Cfg, fmt.Sprintf("%s: %d bytes delivered, %d written", tag, d.rr.Total, d.want)})
 			// clean EOF before the length although every Write and the CloseWrite succeeded: silent loss
+			// (decided after a second run: the far side tearing the CONNECTION down cleanly - which nothing in
+			// this sweep does, but a starved keep-alive could - also surfaces as EOF on every stream)
 			case d.rr.EOF && d.rr.Total < d.want && (d.name == "opener->handler" && d.w.ok(sp.Up) || d.name == "handler->opener" && d.w.ok(sp.Down) && o.HandlerRan):
-				safety = append(safety, sysVerdict{"sys:clean-eof-before-length/" + c.Cfg, fmt.Sprintf("%s: EOF after %d of %d bytes, the writer saw no error", tag, d.rr.Total, d.want)})
+				failed = append(failed, sysEOFShort+fmt.Sprintf("%s: EOF after %d of %d bytes, the writer saw no error", tag, d.rr.Total, d.want))
 			case d.rr.NoProg:
 				failed = append(failed, tag+": 1000 consecutive empty reads")
 			case !d.rr.EOF:
@@ -795,6 +802,8 @@ func (s *state) system() {
 		}
 		s.r.Count("sys_goroutines_left_after_family", max(0, runtime.NumGoroutine()-baseline))
 	}()
+	s.r.Assume("system sweep (system_test.go): host pairs built by libp2p.New over real loopback sockets for TCP(+PSK), WebSocket(+TLS), QUIC, WebTransport, WebRTC-direct and the shared TCP listener; nothing is closed, reset or altered by the harness, so a delivery that ends in an error or in an early EOF twice in a row on fresh hosts is reported; watchdog expiries and connection-establishment failures are inconclusive",
+		"quic-go, webtransport-go, pion, gorilla/websocket and go-yamux internals are trusted beyond what the sweep exercises")
 	cfgs := s.sysConfigs()
 	perCfg := s.r.Pick(10, 150)
 	var cases []*sysCase
@@ -861,7 +870,14 @@ func (s *state) system() {
 				return
 			case len(failed2) > 0:
 				// statement: bytes written "reach the remote reader exactly once, in order and unmodified"
-				s.r.Violation("sys:delivery-failed-without-fault/"+c.Cfg, c.ID, fmt.Sprintf("both attempts on fresh hosts ended in an error although nothing was closed, reset or altered: %d problems, first: %.300s", len(failed2), failed2[0]), detail)
+				sig := "sys:delivery-failed-without-fault/"
+				for _, f := range failed2 {
+					if strings.HasPrefix(f, sysEOFShort) {
+						sig, failed2[0] = "sys:clean-eof-before-length/", f
+						break
+					}
+				}
+				s.r.Violation(sig+c.Cfg, c.ID, fmt.Sprintf("both attempts on fresh hosts ended in an error although nothing was closed, reset or altered: %d problems, first: %.300s", len(failed2), failed2[0]), detail)
 				return
 			default:
 				s.r.Inconclusive(c.ID, fmt.Sprintf("transient error on the first attempt only: %.400s", fmt.Sprint(failed)))
